@@ -45,12 +45,21 @@ pub struct Outcome<S, A> {
     pub cut_states: usize,
     pub max_depth: usize,
     pub fixpoint: bool,
+    pub capped: Option<String>,
     pub bad: Vec<BadTrace<A>>,
     pub classes: HashMap<String, u64>,
     pub sample_paths: Vec<Vec<A>>,
 }
 
 pub fn bfs<M: Sys>(m: &M, max_depth: usize, max_states: usize) -> Outcome<M::S, M::A> {
+    bfs_capped(m, max_depth, max_states, std::time::Duration::from_secs(3600 * 24))
+}
+
+/// caps are enforced between chunks of the frontier, so a run away state space (e.g. a defect that
+/// makes the state space infinite) stops within seconds of the cap; a capped run is never a fixpoint
+pub fn bfs_capped<M: Sys>(m: &M, max_depth: usize, max_states: usize, max_wall: std::time::Duration) -> Outcome<M::S, M::A> {
+    let started = std::time::Instant::now();
+    let mut capped: Option<String> = None;
     let mut states: Vec<M::S> = Vec::new();
     let mut parent: Vec<Option<(usize, M::A)>> = Vec::new();
     let mut root_of: Vec<usize> = Vec::new();
@@ -83,7 +92,11 @@ pub fn bfs<M: Sys>(m: &M, max_depth: usize, max_states: usize) -> Outcome<M::S, 
         p
     };
     while !frontier.is_empty() {
-        if depth >= max_depth || states.len() >= max_states {
+        if depth >= max_depth {
+            break;
+        }
+        if states.len() >= max_states {
+            capped = Some(format!("state cap {} reached", max_states));
             break;
         }
         // expand in parallel; successors already known are only counted (the index is read-only
@@ -94,9 +107,19 @@ pub fn bfs<M: Sys>(m: &M, max_depth: usize, max_states: usize) -> Outcome<M::S, 
             bad: Vec<(usize, A, String, String)>,
             classes: HashMap<String, u64>,
         }
+        let mut next = Vec::new();
+        for chunk in frontier.chunks(512) {
+        if states.len() >= max_states {
+            capped = Some(format!("state cap {} reached", max_states));
+            break;
+        }
+        if started.elapsed() > max_wall {
+            capped = Some(format!("wall-clock cap {:?} reached", max_wall));
+            break;
+        }
         let index_ro = &index;
         let states_ro = &states;
-        let parts: Vec<Part<M::S, M::A>> = frontier
+        let parts: Vec<Part<M::S, M::A>> = chunk
             .par_iter()
             .map(|&si| {
                 let s = &states_ro[si];
@@ -123,7 +146,6 @@ pub fn bfs<M: Sys>(m: &M, max_depth: usize, max_states: usize) -> Outcome<M::S, 
                 part
             })
             .collect();
-        let mut next = Vec::new();
         for part in parts {
             transitions += part.transitions;
             for (c, n) in part.classes {
@@ -153,6 +175,10 @@ pub fn bfs<M: Sys>(m: &M, max_depth: usize, max_states: usize) -> Outcome<M::S, 
                 root_of.push(root_of[si]);
             }
         }
+        }
+        if capped.is_some() {
+            break;
+        }
         depth += 1;
         if next.is_empty() {
             fixpoint = true;
@@ -174,7 +200,8 @@ pub fn bfs<M: Sys>(m: &M, max_depth: usize, max_states: usize) -> Outcome<M::S, 
         transitions,
         cut_states,
         max_depth: depth,
-        fixpoint,
+        fixpoint: fixpoint && capped.is_none(),
+        capped,
         bad,
         classes,
         sample_paths,
